@@ -19,6 +19,7 @@ import (
 	"strings"
 	"sync"
 	"sync/atomic"
+	"syscall"
 	"time"
 )
 
@@ -51,6 +52,8 @@ type Part struct {
 	Isolate bool
 	// Race: run this part with the -race build of the worker binary.
 	Race bool
+	// Uid > 0: run the workers of this part with that uid/gid (non-root behaviour).
+	Uid int
 }
 
 // Source enumerates cases by index.
@@ -102,6 +105,7 @@ type workerSpec struct {
 	NShard int    `json:"nshard"`
 	From   int    `json:"from"` // first index (global) to consider
 	Only   int    `json:"only"` // if >=0 run only this index
+	Uid    int    `json:"uid,omitempty"`
 }
 
 // WorkerMain runs in the worker subprocess. The protocol stream is fd 3.
@@ -288,6 +292,13 @@ func runWorker(bin string, spec workerSpec, a *agg, deadline time.Time, onN func
 	sj, _ := json.Marshal(spec)
 	cmd := exec.Command(bin, "-test.run=^TestEntry$", "-test.timeout=0", "-test.count=1")
 	cmd.Env = append(os.Environ(), "VCHECK_WORKER="+string(sj))
+	if spec.Uid > 0 {
+		pub := filepath.Join(Scratch(), fmt.Sprintf("uid%d", spec.Uid))
+		os.MkdirAll(pub, 0o777)
+		os.Chmod(pub, 0o777|os.ModeSticky)
+		cmd.Env = append(cmd.Env, "VERIF_SCRATCH="+pub, "HOME="+pub)
+		cmd.SysProcAttr = &syscall.SysProcAttr{Credential: &syscall.Credential{Uid: uint32(spec.Uid), Gid: uint32(spec.Uid)}}
+	}
 	pr, pw, perr := os.Pipe()
 	if perr != nil {
 		return -1, false, "", perr
@@ -512,7 +523,7 @@ func Check(id, tier string) int {
 		if part.Isolate {
 			// one process per case: first learn N.
 			n := -1
-			_, _, _, _ = runWorker(wbin, workerSpec{Prop: id, Tier: tier, Part: part.Name, Shard: 0, NShard: 1, From: 1 << 30, Only: -1}, a, deadline, func(k int) { n = k })
+			_, _, _, _ = runWorker(wbin, workerSpec{Prop: id, Tier: tier, Part: part.Name, Shard: 0, NShard: 1, From: 1 << 30, Only: -1, Uid: part.Uid}, a, deadline, func(k int) { n = k })
 			if n < 0 {
 				harnessErr = append(harnessErr, "could not enumerate part "+part.Name)
 				continue
@@ -530,7 +541,7 @@ func Check(id, tier string) int {
 				go func(i int) {
 					defer wg.Done()
 					defer func() { <-sem }()
-					runShard(wbin, workerSpec{Prop: id, Tier: tier, Part: part.Name, Only: i}, a, deadline, nil, &harnessErr, &hmu)
+					runShard(wbin, workerSpec{Prop: id, Tier: tier, Part: part.Name, Only: i, Uid: part.Uid}, a, deadline, nil, &harnessErr, &hmu)
 				}(i)
 			}
 			wg.Wait()
@@ -542,7 +553,7 @@ func Check(id, tier string) int {
 			wg.Add(1)
 			go func(s int) {
 				defer wg.Done()
-				spec := workerSpec{Prop: id, Tier: tier, Part: part.Name, Shard: (s + seed) % par, NShard: par, From: 0, Only: -1}
+				spec := workerSpec{Prop: id, Tier: tier, Part: part.Name, Shard: (s + seed) % par, NShard: par, From: 0, Only: -1, Uid: part.Uid}
 				runShard(wbin, spec, a, deadline, func(n int) {
 					nmu.Lock()
 					a.partTotals[part.Name] = n
@@ -816,14 +827,18 @@ func rerunFails(bin, raceBin string, p *Prop, tier string, cf caseFail) bool {
 	}
 	a := &agg{outcomes: map[string]int64{}, counters: map[string]int64{}, partTotals: map[string]int{}, partDone: map[string]int{}}
 	wbin := bin
+	uid := 0
 	for _, pt := range p.Parts(tier) {
 		if pt.Name == cf.Part && pt.Race {
 			wbin = raceBin
 		}
+		if pt.Name == cf.Part {
+			uid = pt.Uid
+		}
 	}
 	var herr []string
 	var hmu sync.Mutex
-	runShard(wbin, workerSpec{Prop: p.ID, Tier: tier, Part: cf.Part, Only: cf.Idx}, a, time.Now().Add(10*time.Minute), nil, &herr, &hmu)
+	runShard(wbin, workerSpec{Prop: p.ID, Tier: tier, Part: cf.Part, Only: cf.Idx, Uid: uid}, a, time.Now().Add(10*time.Minute), nil, &herr, &hmu)
 	for _, f := range a.fails {
 		if f.Res.Fail.Symptom == cf.Res.Fail.Symptom {
 			return true
@@ -851,7 +866,11 @@ func Replay(path string) int {
 	}
 	bin, _ := os.Executable()
 	raceBin := filepath.Join(filepath.Dir(bin), "vcheck.race.test")
+	uid := 0
 	for _, pt := range p.Parts(rf.Tier) {
+		if pt.Name == rf.Part {
+			uid = pt.Uid
+		}
 		if pt.Name == rf.Part && pt.Race {
 			if err := buildRace(raceBin); err != nil {
 				fmt.Fprintln(os.Stderr, err)
@@ -863,7 +882,7 @@ func Replay(path string) int {
 	a := &agg{outcomes: map[string]int64{}, counters: map[string]int64{}, partTotals: map[string]int{}, partDone: map[string]int{}}
 	var herr []string
 	var hmu sync.Mutex
-	runShard(bin, workerSpec{Prop: rf.Property, Tier: rf.Tier, Part: rf.Part, Only: rf.Index}, a, time.Now().Add(20*time.Minute), nil, &herr, &hmu)
+	runShard(bin, workerSpec{Prop: rf.Property, Tier: rf.Tier, Part: rf.Part, Only: rf.Index, Uid: uid}, a, time.Now().Add(20*time.Minute), nil, &herr, &hmu)
 	for _, e := range herr {
 		fmt.Println("harness:", e)
 	}
